@@ -38,6 +38,117 @@ Proof.
   unfold fut_pending, fut_complete. cbn [futs upd_task set_tasks]. now rewrite Hp.
 Qed.
 
+(* a request, once placed, is not disturbed by the rest of the delivery *)
+Lemma requested_deliver_task self origin a r t t' o :
+  requested a t' o -> requested (fst (deliver_task self origin (a, r) t)) t' o.
+Proof.
+  intros R. pose proof (kframe_deliver_task self origin a r t) as Kstep.
+  unfold deliver_task in *.
+  destruct (k_done (tasks a t)) eqn:Hda; [exact R|].
+  destruct (k_must (tasks a t)) eqn:Em; [exact R|].
+  destruct (negb (opt_eqb (running a) t) && (opt_eqb (s_host (scopes a self)) t || k_started (tasks a t)));
+    [|exact R].
+  destruct (match k_waiter (tasks a t) with Some f => fut_pending a f | None => true end) eqn:Ew; [|exact R].
+  cbn [fst] in *.
+  set (a1 := task_cancel a t (S origin)) in *.
+  set (a2 := if opt_eqb (s_host (scopes a1 origin)) t
+             then upd_scope a1 origin (fun c => sc_pending (S (s_pending c)) c) else a1) in *.
+  assert (E2 : tasks a2 = tasks a1 /\ futs a2 = futs a1).
+  { unfold a2. destruct (opt_eqb (s_host (scopes a1 origin)) t); split; reflexivity. }
+  destruct E2 as [E2t E2f].
+  destruct (Nat.eq_dec t' t) as [->|Hne].
+  { exfalso. destruct R as [[R1 _]|[f [_ [R1 [R2 _]]]]]; [congruence|].
+    rewrite R1 in Ew. unfold fut_pending in Ew. rewrite R2 in Ew. discriminate. }
+  assert (Et : tasks a2 t' = tasks a t').
+  { rewrite E2t. unfold a1, task_cancel. rewrite Hda.
+    destruct (k_waiter (tasks a t)) as [f|].
+    - destruct (fut_pending _ f).
+      + unfold fut_complete. destruct (f_st _); try destruct (f_waiter _); cbn; unfold upd;
+          destruct (Nat.eqb_spec t' t); try contradiction; reflexivity.
+      + cbn. unfold upd. destruct (Nat.eqb_spec t' t); try contradiction; reflexivity.
+    - cbn. unfold upd. destruct (Nat.eqb_spec t' t); try contradiction; reflexivity. }
+  assert (Ef : forall f', f_st (futs a f') <> FPend -> futs a2 f' = futs a f').
+  { intros f' Hf'. rewrite E2f. unfold a1, task_cancel. rewrite Hda.
+    destruct (k_waiter (tasks a t)) as [f|]; [|reflexivity].
+    unfold fut_pending. cbn [futs upd_task set_tasks].
+    destruct (f_st (futs a f)) eqn:Ep; try reflexivity.
+    unfold fut_complete. cbn [futs upd_task set_tasks]. rewrite Ep.
+    assert (f' <> f) by (intros ->; now apply Hf').
+    destruct (f_waiter (futs a f)); cbn; unfold upd; destruct (Nat.eqb_spec f' f); try contradiction; reflexivity. }
+  assert (Er : forall h, In h (ready a) -> In h (ready a2)).
+  { intros h Hh. destruct (kf_ready _ _ Kstep) as [l [El _]]. rewrite El. apply in_or_app. now left. }
+  destruct R as [[R1 [R2 R3]]|[f' [R0 [R1 [R2 R3]]]]].
+  - left. now rewrite Et.
+  - right. exists f'. rewrite Et. split; [exact R0|]. split; [exact R1|]. split; [|now apply Er].
+    rewrite Ef; [exact R2|]. rewrite R2. discriminate.
+Qed.
+
+Lemma requested_fold_deliver_task self origin t' o l : forall a r,
+  requested a t' o -> requested (fst (fold_left (deliver_task self origin) l (a, r))) t' o.
+Proof.
+  induction l as [|t l IH]; intros a r R; cbn [fold_left]; [exact R|].
+  destruct (deliver_task self origin (a, r) t) as [a1 r1] eqn:E. apply IH.
+  change a1 with (fst (a1, r1)). rewrite <- E. now apply requested_deliver_task.
+Qed.
+
+Definition dstep (fu : nat) (origin : sid) (acc : st * bool) (c : sid) : st * bool :=
+  let '(a, r) := acc in
+  if negb (s_shield (scopes a c)) && negb (s_cancelled (scopes a c))
+  then let '(a', r') := deliver fu a c origin in (a', r' || r) else (a, r).
+
+Lemma deliver_unfold fu s self origin :
+  deliver (S fu) s self origin =
+  let '(s1, r1) := fold_left (deliver_task self origin) (s_tasks (scopes s self)) (s, false) in
+  let '(s2, r2) := fold_left (dstep fu origin) (s_children (scopes s1 self)) (s1, r1) in
+  if Nat.eqb origin self then
+    if r2 then (call_soon (upd_scope s2 self (sc_chandle true)) (HDeliver self), r2)
+    else (upd_scope s2 self (sc_chandle false), r2)
+  else (s2, r2).
+Proof. reflexivity. Qed.
+
+Lemma requested_chandle a self b t' o :
+  requested a t' o -> requested (upd_scope a self (sc_chandle b)) t' o.
+Proof. intros R. exact R. Qed.
+
+Lemma requested_call_soon a h t' o : requested a t' o -> requested (call_soon a h) t' o.
+Proof.
+  intros [R|[f [R0 [R1 [R2 R3]]]]]; [now left|right]. exists f. repeat split; try assumption.
+  cbn. apply in_or_app. now left.
+Qed.
+
+Lemma requested_deliver origin t' o fu : forall a self,
+  requested a t' o -> requested (fst (deliver fu a self origin)) t' o.
+Proof.
+  induction fu as [|fu IH]; intros a self R; [exact R|].
+  rewrite deliver_unfold.
+  destruct (fold_left (deliver_task self origin) (s_tasks (scopes a self)) (a, false)) as [s1 r1] eqn:E1.
+  assert (R1 : requested s1 t' o).
+  { change s1 with (fst (s1, r1)). rewrite <- E1. now apply requested_fold_deliver_task. }
+  assert (F : forall l b r, requested b t' o -> requested (fst (fold_left (dstep fu origin) l (b, r))) t' o).
+  { induction l as [|c l IHl]; intros b r Rb; cbn [fold_left]; [exact Rb|].
+    destruct (dstep fu origin (b, r) c) as [b1 r1'] eqn:Es. apply IHl.
+    unfold dstep in Es. destruct (negb (s_shield (scopes b c)) && negb (s_cancelled (scopes b c))).
+    - destruct (deliver fu b c origin) as [b' r'] eqn:Ed. inversion Es; subst.
+      change b1 with (fst (b1, r')). rewrite <- Ed. now apply IH.
+    - now inversion Es; subst. }
+  destruct (fold_left (dstep fu origin) (s_children (scopes s1 self)) (s1, r1)) as [s2 r2] eqn:E2.
+  assert (R2 : requested s2 t' o).
+  { change s2 with (fst (s2, r2)). rewrite <- E2. now apply F. }
+  destruct (Nat.eqb origin self); [|exact R2].
+  destruct r2; cbn [fst]; [apply requested_call_soon|]; now apply requested_chandle.
+Qed.
+
+Lemma requested_fold_dstep fu origin t' o l : forall b r,
+  requested b t' o -> requested (fst (fold_left (dstep fu origin) l (b, r))) t' o.
+Proof.
+  induction l as [|c l IHl]; intros b r Rb; cbn [fold_left]; [exact Rb|].
+  destruct (dstep fu origin (b, r) c) as [b1 r1'] eqn:Es. apply IHl.
+  unfold dstep in Es. destruct (negb (s_shield (scopes b c)) && negb (s_cancelled (scopes b c))).
+  - destruct (deliver fu b c origin) as [b' r'] eqn:Ed. inversion Es; subst.
+    change b1 with (fst (b1, r')). rewrite <- Ed. now apply requested_deliver.
+  - now inversion Es; subst.
+Qed.
+
 Section DeliverSpec.
   Variable s0 : st.
   Variable origin : sid.
@@ -173,4 +284,235 @@ Section DeliverSpec.
       * left. unfold a1. rewrite (task_cancel_nowaiter a t (S origin) Hda Hwa).
         cbn. unfold upd. rewrite !Nat.eqb_refl. cbn. repeat split. exact Hwa.
   Qed.
+
+  Lemma Q_fold_tasks self l : forall a r, Q a ->
+    let res := fold_left (deliver_task self origin) l (a, r) in
+    Q (fst res) /\ (forall t, In t l -> elig t self -> requested (fst res) t (S origin)) /\
+    (snd res = true <-> r = true \/ exists t, In t l /\ k_done (tasks s0 t) = None).
+  Proof.
+    induction l as [|t l IH]; intros a r HQ; cbn [fold_left].
+    - cbn. split; [exact HQ|]. split; [intros t []|]. split; [now left|]. intros [H|[t [[] _]]]. exact H.
+    - destruct (Q_deliver_task self a r t HQ) as [HQ1 [He Hr]].
+      destruct (deliver_task self origin (a, r) t) as [a1 r1] eqn:E. cbn [fst snd] in *.
+      destruct (IH a1 r1 HQ1) as [HQ2 [He2 Hr2]]. cbv zeta in *.
+      split; [exact HQ2|]. split.
+      + intros t' [->|Hin] El; [|now apply He2].
+        apply requested_fold_deliver_task. now apply He.
+      + rewrite Hr2. subst r1. destruct (k_done (tasks s0 t)) eqn:Ed.
+        * split.
+          -- intros [H|[t' [Hin Hd]]]; [now left|]. right. exists t'. split; [now right|exact Hd].
+          -- intros [H|[t' [[->|Hin] Hd]]]; [now left|congruence|]. right. exists t'. now split.
+        * split; [|now left]. intros _. right. exists t. split; [now left|exact Ed].
+  Qed.
+
+  Lemma Q_deliver fu : forall a self, Q a ->
+    let res := deliver fu a self origin in
+    Q (fst res) /\
+    (forall x t, dreach s0 fu self x t -> elig t x -> requested (fst res) t (S origin)) /\
+    (snd res = true <-> exists x t, dreach s0 fu self x t /\ k_done (tasks s0 t) = None).
+  Proof.
+    induction fu as [|fu IH]; intros a self HQ.
+    - cbn. split; [exact HQ|]. split; [intros x t H; inversion H|].
+      split; [discriminate|]. intros [x [t [H _]]]. inversion H.
+    - cbv zeta. rewrite deliver_unfold.
+      destruct (Q_fold_tasks self (s_tasks (scopes a self)) a false HQ) as [HQ1 [He1 Hr1]].
+      destruct (fold_left (deliver_task self origin) (s_tasks (scopes a self)) (a, false)) as [s1 r1] eqn:E1.
+      cbn [fst snd] in *.
+      (* the fold over the children *)
+      assert (F : forall l b r, Q b ->
+                let res := fold_left (dstep fu origin) l (b, r) in
+                Q (fst res) /\
+                (forall ch x t, In ch l -> s_shield (scopes s0 ch) = false -> s_cancelled (scopes s0 ch) = false ->
+                   dreach s0 fu ch x t -> elig t x -> requested (fst res) t (S origin)) /\
+                (snd res = true <-> r = true \/
+                   exists ch x t, In ch l /\ s_shield (scopes s0 ch) = false /\ s_cancelled (scopes s0 ch) = false /\
+                                  dreach s0 fu ch x t /\ k_done (tasks s0 t) = None)).
+      { induction l as [|c l IHl]; intros b r Hb; cbn [fold_left].
+        - cbn. split; [exact Hb|]. split; [intros ch x t []|]. split; [now left|].
+          intros [H|[ch [x [t [[] _]]]]]. exact H.
+        - assert (Ksb : kframe s0 b) by apply Hb.
+          assert (Es : dstep fu origin (b, r) c =
+                       if negb (s_shield (scopes s0 c)) && negb (s_cancelled (scopes s0 c))
+                       then (let '(a', r') := deliver fu b c origin in (a', r' || r)) else (b, r)).
+          { unfold dstep.
+            now rewrite (core_shield _ _ (kf_scopes _ _ Ksb c)), (core_cancelled _ _ (kf_scopes _ _ Ksb c)). }
+          rewrite Es. clear Es.
+          destruct (negb (s_shield (scopes s0 c)) && negb (s_cancelled (scopes s0 c))) eqn:Eg.
+          + apply andb_true_iff in Eg. destruct Eg as [Eg1 Eg2].
+            apply negb_true_iff in Eg1, Eg2.
+            destruct (IH b c Hb) as [Hb1 [He Hr]].
+            destruct (deliver fu b c origin) as [b' r'] eqn:Ed. cbn [fst snd] in *.
+            destruct (IHl b' (r' || r) Hb1) as [Hb2 [He2 Hr2]]. cbv zeta in *.
+            split; [exact Hb2|]. split.
+            * intros ch x t [->|Hin] Hs Hc Hd El; [|now apply (He2 ch x t)].
+              assert (R : requested b' t (S origin)) by now apply (He x t).
+              now apply requested_fold_dstep.
+            * rewrite Hr2, orb_true_iff, Hr. split.
+              -- intros [[[x [t [Hd Hk]]]|H]|[ch [x [t [Hin H]]]]].
+                 ++ right. exists c, x, t. repeat split; try assumption. now left.
+                 ++ now left.
+                 ++ right. exists ch, x, t. split; [now right|exact H].
+              -- intros [H|[ch [x [t [[->|Hin] [H1 [H2 [H3 H4]]]]]]]].
+                 ++ left. now right.
+                 ++ left. left. now exists x, t.
+                 ++ right. exists ch, x, t. repeat split; assumption.
+          + destruct (IHl b r Hb) as [Hb2 [He2 Hr2]]. cbv zeta in *.
+            split; [exact Hb2|]. split.
+            * intros ch x t [->|Hin] Hs Hc Hd El; [|now apply (He2 ch x t)].
+              rewrite Hs, Hc in Eg. discriminate.
+            * rewrite Hr2. split.
+              -- intros [H|[ch [x [t [Hin H]]]]]; [now left|]. right. exists ch, x, t. split; [now right|exact H].
+              -- intros [H|[ch [x [t [[->|Hin] [H1 [H2 [H3 H4]]]]]]]]; [now left| |].
+                 ++ rewrite H1, H2 in Eg. discriminate.
+                 ++ right. exists ch, x, t. repeat split; assumption. }
+      assert (Ks1 : kframe s0 s1) by apply HQ1.
+      destruct (F (s_children (scopes s1 self)) s1 r1 HQ1) as [HQ2 [He2 Hr2]].
+      destruct (fold_left (dstep fu origin) (s_children (scopes s1 self)) (s1, r1)) as [s2 r2] eqn:E2.
+      cbn [fst snd] in *.
+      assert (Ka : kframe s0 a) by apply HQ.
+      (* facts about (s2, r2), then the wrap-up at the origin *)
+      assert (G2 : forall x t, dreach s0 (S fu) self x t -> elig t x -> requested s2 t (S origin)).
+      { intros x t Hd El. inversion Hd; subst.
+        - assert (R : requested s1 t (S origin)).
+          { apply He1; [|exact El]. now rewrite (core_tasks _ _ (kf_scopes _ _ Ka x)). }
+          change s2 with (fst (s2, r2)). rewrite <- E2. now apply requested_fold_dstep.
+        - apply (He2 ch x t); try assumption.
+          now rewrite (core_children _ _ (kf_scopes _ _ Ks1 self)). }
+      assert (G3 : r2 = true <-> exists x t, dreach s0 (S fu) self x t /\ k_done (tasks s0 t) = None).
+      { rewrite Hr2, Hr1. split.
+        - intros [[H|[t [Hin Hd]]]|[ch [x [t [Hin [H1 [H2 [H3 H4]]]]]]]]; [discriminate| |].
+          + exists self, t. split; [|exact Hd]. apply dr_here.
+            now rewrite <- (core_tasks _ _ (kf_scopes _ _ Ka self)).
+          + exists x, t. split; [|exact H4]. eapply dr_child; eauto.
+            now rewrite <- (core_children _ _ (kf_scopes _ _ Ks1 self)).
+        - intros [x [t [Hd Hk]]]. inversion Hd; subst.
+          + left. right. exists t. split; [|exact Hk].
+            now rewrite (core_tasks _ _ (kf_scopes _ _ Ka x)).
+          + right. exists ch, x, t. repeat split; try assumption.
+            now rewrite (core_children _ _ (kf_scopes _ _ Ks1 self)). }
+      assert (W : forall b, Q s2 -> kframe s2 b -> tasks b = tasks s2 -> futs b = futs s2 -> Q b).
+      { intros b [K2 H2] Kb Et Ef. split; [eapply kframe_trans; eauto|].
+        intros t. destruct (H2 t) as [[U1 U2]|R].
+        - left. split; [now rewrite Et|]. intros f Hf. rewrite Ef. now apply U2.
+        - right. destruct R as [R|[f [R0 [R1 [R2 R3]]]]]; [left; now rewrite Et|right].
+          exists f. rewrite Et, Ef. repeat split; try assumption.
+          destruct (kf_ready _ _ Kb) as [l [El _]]. rewrite El. apply in_or_app. now left. }
+      destruct (Nat.eqb origin self).
+      + destruct r2; cbn [fst snd].
+        * split; [|split; [|exact G3]].
+          -- apply W; [exact HQ2| |reflexivity|reflexivity].
+             eapply kframe_trans; [|apply kframe_call_soon; exact I].
+             apply kframe_upd_scope. intros k; reflexivity.
+          -- intros x t Hd El. apply requested_call_soon, requested_chandle. now apply (G2 x t).
+        * split; [|split; [|exact G3]].
+          -- apply W; [exact HQ2| |reflexivity|reflexivity]. apply kframe_upd_scope. intros k; reflexivity.
+          -- intros x t Hd El. apply requested_chandle. now apply (G2 x t).
+      + cbn [fst snd]. split; [exact HQ2|]. split; [exact G2|exact G3].
+  Qed.
 End DeliverSpec.
+
+(* ---------------- scopes other than the origin are not touched at all ---------------- *)
+Lemma fut_complete_scopes s f v : scopes (fut_complete s f v) = scopes s.
+Proof.
+  unfold fut_complete. destruct (f_st (futs s f)); try reflexivity.
+  destruct (f_waiter (futs s f)); reflexivity.
+Qed.
+
+Lemma task_cancel_scopes s t o : scopes (task_cancel s t o) = scopes s.
+Proof.
+  unfold task_cancel. destruct (k_done (tasks s t)); [reflexivity|].
+  destruct (k_waiter (tasks s t)); [|reflexivity].
+  destruct (fut_pending _ f); [|reflexivity]. now rewrite fut_complete_scopes.
+Qed.
+
+Lemma deliver_task_scopes_other self origin a r t c' : c' <> origin ->
+  scopes (fst (deliver_task self origin (a, r) t)) c' = scopes a c'.
+Proof.
+  intros Hne. unfold deliver_task.
+  destruct (k_done (tasks a t)); [reflexivity|]. destruct (k_must (tasks a t)); [reflexivity|].
+  destruct (_ && _); [|reflexivity].
+  destruct (match k_waiter (tasks a t) with Some f => fut_pending a f | None => true end); [|reflexivity].
+  cbn [fst]. destruct (opt_eqb _ t).
+  - cbn. unfold upd. destruct (Nat.eqb_spec c' origin); [contradiction|]. now rewrite task_cancel_scopes.
+  - now rewrite task_cancel_scopes.
+Qed.
+
+Lemma fold_deliver_task_scopes_other self origin c' l : c' <> origin -> forall a r,
+  scopes (fst (fold_left (deliver_task self origin) l (a, r))) c' = scopes a c'.
+Proof.
+  intros Hne. induction l as [|t l IH]; intros a r; cbn [fold_left]; [reflexivity|].
+  destruct (deliver_task self origin (a, r) t) as [a1 r1] eqn:E. rewrite IH.
+  change a1 with (fst (a1, r1)). rewrite <- E. now apply deliver_task_scopes_other.
+Qed.
+
+Lemma deliver_scopes_other origin c' fu : c' <> origin -> forall a self,
+  scopes (fst (deliver fu a self origin)) c' = scopes a c'.
+Proof.
+  intros Hne. induction fu as [|fu IH]; intros a self; [reflexivity|].
+  rewrite deliver_unfold.
+  pose proof (fold_deliver_task_scopes_other self origin c' (s_tasks (scopes a self)) Hne a false) as H1.
+  destruct (fold_left (deliver_task self origin) (s_tasks (scopes a self)) (a, false)) as [s1 r1].
+  cbn [fst] in H1.
+  assert (F : forall l b r, scopes (fst (fold_left (dstep fu origin) l (b, r))) c' = scopes b c').
+  { induction l as [|c l IHl]; intros b r; cbn [fold_left]; [reflexivity|].
+    destruct (dstep fu origin (b, r) c) as [b1 r1'] eqn:Es. rewrite IHl.
+    unfold dstep in Es. destruct (negb (s_shield (scopes b c)) && negb (s_cancelled (scopes b c))).
+    - destruct (deliver fu b c origin) as [b' r'] eqn:Ed. inversion Es; subst.
+      change b1 with (fst (b1, r')). rewrite <- Ed. apply IH.
+    - now inversion Es; subst. }
+  pose proof (F (s_children (scopes s1 self)) s1 r1) as H2.
+  destruct (fold_left (dstep fu origin) (s_children (scopes s1 self)) (s1, r1)) as [s2 r2].
+  cbn [fst] in H2.
+  destruct (Nat.eqb_spec origin self) as [->|Hos]; [|cbn [fst]; now rewrite H2].
+  destruct r2; cbn; unfold upd; destruct (Nat.eqb_spec c' self); try contradiction; now rewrite H2.
+Qed.
+
+(* ---------------- deliver at the top: the C03 function-level statement ---------------- *)
+Theorem deliver_top_spec s c : wait_link s ->
+  let s' := deliver_top s c in
+  kframe s s' /\
+  (forall c', c' <> c -> scopes s' c' = scopes s c') /\
+  (forall x t, dreach s (S (nscope s)) c x t -> elig s t x -> requested s' t (S c)) /\
+  ((exists x t, dreach s (S (nscope s)) c x t /\ k_done (tasks s t) = None) ->
+     s_chandle (scopes s' c) = true /\ In (HDeliver c) (ready s')) /\
+  (~ (exists x t, dreach s (S (nscope s)) c x t /\ k_done (tasks s t) = None) ->
+     s_chandle (scopes s' c) = false).
+Proof.
+  intros WL s'. split; [apply kframe_deliver_top|]. split.
+  { intros c' Hne. now apply deliver_scopes_other. }
+  assert (HQ : Q s c s).
+  { split; [apply kframe_refl|]. intros t. left. split; [reflexivity|]. intros; reflexivity. }
+  destruct (Q_deliver s c WL (S (nscope s)) s c HQ) as [_ [He Hr]]. cbv zeta in *.
+  split; [exact He|].
+  unfold s', deliver_top. rewrite deliver_unfold in *.
+  destruct (fold_left (deliver_task c c) (s_tasks (scopes s c)) (s, false)) as [s1 r1].
+  destruct (fold_left (dstep (nscope s) c) (s_children (scopes s1 c)) (s1, r1)) as [s2 r2].
+  rewrite Nat.eqb_refl in *. destruct r2; cbn [fst snd] in *.
+  - split.
+    + intros _. split; [cbn; unfold upd; now rewrite Nat.eqb_refl|].
+      cbn. apply in_or_app. right. now left.
+    + intros Hn. exfalso. apply Hn. now apply Hr.
+  - split.
+    + intros H. apply Hr in H. discriminate.
+    + intros _. cbn. unfold upd. now rewrite Nat.eqb_refl.
+Qed.
+
+Theorem deliver_reschedules_iff_retry fu s c :
+  let s' := fst (deliver (S fu) s c c) in
+  let r := snd (deliver (S fu) s c c) in
+  s_chandle (scopes s' c) = r /\
+  (r = true -> exists l, ready s' = l ++ [HDeliver c]) /\
+  (r = false -> ~ In (HDeliver c) (ready s) -> forall c', c' <> c -> scopes s' c' = scopes s c').
+Proof.
+  cbv zeta. split; [|split].
+  - rewrite deliver_unfold.
+    destruct (fold_left (deliver_task c c) (s_tasks (scopes s c)) (s, false)) as [s1 r1].
+    destruct (fold_left (dstep fu c) (s_children (scopes s1 c)) (s1, r1)) as [s2 r2].
+    rewrite Nat.eqb_refl. destruct r2; cbn; unfold upd; now rewrite Nat.eqb_refl.
+  - rewrite deliver_unfold.
+    destruct (fold_left (deliver_task c c) (s_tasks (scopes s c)) (s, false)) as [s1 r1].
+    destruct (fold_left (dstep fu c) (s_children (scopes s1 c)) (s1, r1)) as [s2 r2].
+    rewrite Nat.eqb_refl. destruct r2; cbn [fst snd]; [|discriminate].
+    intros _. exists (ready s2). reflexivity.
+  - intros _ _ c' Hne. now apply deliver_scopes_other.
+Qed.
